@@ -13,7 +13,7 @@ import (
 
 // one precommit slot of the embedded last commit
 func vC02Slot(i int, st *sm.State, other types.BlockID) (v *types.Vote, counts bool) {
-	switch vNondetLen("pc.kind", 0, 7) {
+	switch vNondetLen("pc.kind", 0, 9) {
 	case 0:
 		return nil, false
 	case 1: // genuine
@@ -28,6 +28,9 @@ func vC02Slot(i int, st *sm.State, other types.BlockID) (v *types.Vote, counts b
 		return vVote(i, st.LastBlockHeight, 0, types.VoteTypePrecommit, other, true, byte(i)), false
 	case 6: // foreign round
 		return vVote(i, st.LastBlockHeight, 1, types.VoteTypePrecommit, st.LastBlockID, true, byte(i)), true
+	case 8: // signed for the right hash but WITHOUT the part-set header: not the committed block id
+		stripped := types.BlockID{Hash: st.LastBlockID.Hash}
+		return vVote(i, st.LastBlockHeight, 0, types.VoteTypePrecommit, stripped, true, byte(i)), false
 	default: // validator 0's genuine precommit copied into this slot (counts only in its own slot)
 		return vVote(0, st.LastBlockHeight, 0, types.VoteTypePrecommit, st.LastBlockID, true, 0), i == 0
 	}
@@ -48,7 +51,7 @@ func VerifHarness_C02_validate_block() {
 
 	// Either exactly one header field / component is wrong (with a genuine commit), or the header is
 	// right and the embedded last commit is arbitrary.
-	defect := vNondetLen("defect", 0, 14)
+	defect := vNondetLen("defect", 0, 15)
 	lc := &types.Commit{BlockID: st.LastBlockID, Precommits: make([]*types.Vote, n)}
 	signedPower, rounds0, rounds1 := int64(0), 0, 0
 	if defect == 0 {
@@ -114,6 +117,8 @@ func VerifHarness_C02_validate_block() {
 		b.LastCommit = nil
 	case 14:
 		data.Txs = types.Txs{types.Tx{1}} // data no longer matches DataHash / NumTxs
+	case 15:
+		hd.LastBlockID = types.BlockID{Hash: st.LastBlockID.Hash} // right hash, part-set header stripped
 	}
 
 	err := cs.ValidateBlock(b) // real code; a panic is a finding
